@@ -4,7 +4,7 @@ SPECIFICATION Spec
 CONSTANTS MaxLen = 3
   MaxDepth = 2
   EmitAt = 0
-  Fuel = 80
+  Fuel = 150
   EmitTree = FALSE
   Devs = {}
-INVARIANTS Laws Emit
+INVARIANTS Check
